@@ -1,6 +1,7 @@
 import BU.Gen.Codec
 import BU.Model.Block
 import BU.Properties.C15
+import BU.Proofs.GenTweak
 /-!
 # C15, continuation — block headers as *generated* code (tier T)
 
@@ -11,7 +12,7 @@ and the block-hash formula (C15.header_roundtrip, block_hash) for the translated
 -/
 set_option linter.unusedSimpArgs false
 namespace C15GenHeader
-open Py Model
+open Py Model Loop
 
 def hdrPy (h : Header) : Py.PyHeader := ⟨h.version, h.prev, h.merkle, h.time, h.bits, h.nonce⟩
 
@@ -57,5 +58,35 @@ theorem gen_header_roundtrip (sha256 : Bytes → Bytes) (b : Bytes) (h : b.lengt
 theorem gen_header_rejects (b : Bytes) (h : b.length ≠ 80) : ∃ e, Gen.blockheader_from_raw b = .error e := by
   obtain ⟨e, he⟩ := C15.header_rejects b h
   exact ⟨e, by rw [gen_header_from_raw, he]; rfl⟩
+
+/-! ## the compact target -/
+
+/-- `get_target_bits`: for an exponent of at least 3 and a target below 2^256 the 64 hex digits of coefficient · 256^(exponent − 3)
+(the hex string as the bytes it denotes); a smaller exponent is a negative shift count (`ValueError`) -/
+theorem gen_header_target (bits : Nat) (he : 3 ≤ bits / 2 ^ 24)
+    (hs : (bits % 2 ^ 24) * 2 ^ (8 * (bits / 2 ^ 24 - 3)) < 2 ^ 256) :
+    Gen.blockheader_target (bits : Int) = .ok (beBytes 32 ((bits % 2 ^ 24) * 2 ^ (8 * (bits / 2 ^ 24 - 3)))) := by
+  unfold Gen.blockheader_target
+  rw [show (24 : Int) = ((24 : Nat) : Int) from rfl, shr_natCast, ok_bind]
+  simp only []
+  rw [show (16777215 : Int) = ((16777215 : Nat) : Int) from rfl]
+  have hl : Py.land ((bits : Nat) : Int) ((16777215 : Nat) : Int) = ((bits % 2 ^ 24 : Nat) : Int) := by
+    show (((bits &&& 16777215 : Nat)) : Int) = _
+    rw [show (16777215 : Nat) = 2 ^ 24 - 1 from rfl, Nat.and_two_pow_sub_one_eq_mod]
+  rw [hl, Nat.shiftRight_eq_div_pow]
+  have e8 : ((8 : Int) * (((bits / 2 ^ 24 : Nat) : Int) - 3)) = ((8 * (bits / 2 ^ 24 - 3) : Nat) : Int) := by omega
+  rw [e8, shl_natCast_shift, ok_bind, Nat.shiftLeft_eq, GenTweak.hexStr64_one _ hs]
+  rfl
+
+theorem gen_header_target_rejects (bits : Nat) (he : bits / 2 ^ 24 < 3) :
+    Gen.blockheader_target (bits : Int) = .error .valueError := by
+  unfold Gen.blockheader_target
+  rw [show (24 : Int) = ((24 : Nat) : Int) from rfl, shr_natCast, ok_bind]
+  simp only []
+  rw [Nat.shiftRight_eq_div_pow]
+  unfold Py.shl
+  have : ((8 : Int) * (((bits / 2 ^ 24 : Nat) : Int) - 3)) < 0 := by omega
+  simp only [this, if_true]
+  rfl
 
 end C15GenHeader
